@@ -17,6 +17,8 @@ package augment
 //@   assigns f.augs, elems(f.augs)
 //@   ensures f.augs.arr == old(f.augs.arr) || fresh(f.augs.arr)
 //@   ensures len(f.augs) == old(len(f.augs)) + 1
+//@   ensures f.augs[old(len(f.augs))] == aug
+//@   ensures forall j int {f.augs[j]} :: 0 <= j && j < old(len(f.augs)) ==> f.augs[j] == old(f.augs[j])
 
 //@ func (f *finder) line(pos) (n)
 //@   requires f.file != nil
@@ -27,7 +29,8 @@ package augment
 //@   requires f.scanner != nil && f.file != nil
 //@   at call (*go/scanner.Scanner).Scan set lastTok = f.tok
 //@   ensures the-token-left-behind-is-remembered: lastTok == old(f.tok) && f.prev == old(f.tok)
-//@   assigns f.pos, f.tok, f.prev, f.offset, lastTok, f.errors, elems(f.errors), scanLeft
+//@   ensures [C08] the-new-token-lies-behind-the-one-left-behind-and-inside-the-source: f.file == scanFile ==> f.offset == posOff(f.file, f.pos) && f.offset >= old(scanEnd) && scanEnd >= f.offset + ite(f.tok == const("go/token.ELLIPSIS"), 3, 0) && (old(scanEnd) <= scanSize ==> scanEnd <= scanSize)
+//@   assigns f.pos, f.tok, f.prev, f.offset, lastTok, f.errors, elems(f.errors), scanLeft, scanEnd
 //@   ensures scanLeft >= 0
 //@   ensures [C08] old(scanLeft) > 0 ==> scanLeft == old(scanLeft) - 1 && f.tok != const("go/token.EOF")
 //@   ensures [C08] old(scanLeft) <= 0 ==> scanLeft == 0 && f.tok == const("go/token.EOF")
@@ -35,8 +38,13 @@ package augment
 
 //@ func (f *finder) ident
 //@   requires finderOK(f) && f.tok != const("go/token.EOF")
-//@   assigns f.pos, f.tok, f.prev, f.offset, lastTok, f.errors, elems(f.errors), scanLeft, tokAfterDots, sameLineAfterDots
+//@   requires augsOK(f)
+//@   assigns f.pos, f.tok, f.prev, f.offset, lastTok, f.errors, elems(f.errors), scanLeft, scanEnd, tokAfterDots, sameLineAfterDots
 //@   ensures finderOK(f)
+//@   ensures [C08] the-augmentations-stay-apart-and-inside-the-scanned-text: augsOK(f)
+//@   ensures [C08] the-scan-never-goes-back: f.offset >= old(f.offset)
+//@   ensures [C08] new-augmentations-lie-behind-the-token-the-step-started-at: augsGrown(f, old(len(f.augs)), old(f.offset))
+//@   ensures forall j int {f.augs[j]} :: 0 <= j && j < old(len(f.augs)) ==> f.augs[j] == old(f.augs[j])
 //@   ensures [C08] consumes-a-token: tokLeft(f) < old(tokLeft(f))
 //@   ensures f.errors.arr == old(f.errors.arr) || fresh(f.errors.arr)
 
@@ -44,22 +52,33 @@ package augment
 // alone; every other `...` is an elision and is replaced by a placeholder of the same length (3 bytes).
 //@ func (f *finder) ellipsis
 //@   requires finderOK(f) && f.tok != const("go/token.EOF")
+//@   requires [C08] called-at-an-ellipsis: f.tok == const("go/token.ELLIPSIS")
+//@   requires augsOK(f)
 //@   at call (*pgo/augment.finder).append assert [C01,C04,C08] an-array-length-ellipsis-is-not-an-elision: old(lastTok) != const("go/token.LBRACK")
 //@   at call (*pgo/augment.finder).append assert [C04,C13] elision-unless-variadic: !(f.tok == const("go/token.IDENT") && fileLine(f.file, pos) == fileLine(f.file, f.pos))
 //@   at call (*pgo/augment.finder).next#0 set tokAfterDots = f.tok
 //@   at call (*pgo/augment.finder).next#0 set sameLineAfterDots = fileLine(f.file, pos) == fileLine(f.file, f.pos)
 //@   ensures [C04,C13] an-ellipsis-that-is-neither-an-array-length-nor-a-variadic-marker-is-an-elision: old(lastTok) != const("go/token.LBRACK") && !(tokAfterDots == const("go/token.IDENT") && sameLineAfterDots) ==> len(f.augs) == old(len(f.augs)) + 1
 //@   at call (*pgo/augment.finder).next#1 assert [C04,C13] variadic-is-an-identifier-on-the-same-line: f.tok == const("go/token.IDENT") && fileLine(f.file, pos) == fileLine(f.file, f.pos)
-//@   assigns f.pos, f.tok, f.prev, f.offset, lastTok, f.errors, elems(f.errors), f.augs, elems(f.augs), scanLeft, tokAfterDots, sameLineAfterDots
+//@   assigns f.pos, f.tok, f.prev, f.offset, lastTok, f.errors, elems(f.errors), f.augs, elems(f.augs), scanLeft, scanEnd, tokAfterDots, sameLineAfterDots
 //@   ensures finderOK(f)
+//@   ensures [C08] the-augmentations-stay-apart-and-inside-the-scanned-text: augsOK(f)
+//@   ensures [C08] the-scan-never-goes-back: f.offset >= old(f.offset)
+//@   ensures [C08] new-augmentations-lie-behind-the-token-the-step-started-at: augsGrown(f, old(len(f.augs)), old(f.offset))
+//@   ensures forall j int {f.augs[j]} :: 0 <= j && j < old(len(f.augs)) ==> f.augs[j] == old(f.augs[j])
 //@   ensures [C08] consumes-a-token: tokLeft(f) < old(tokLeft(f))
 //@   ensures f.errors.arr == old(f.errors.arr) || fresh(f.errors.arr)
 //@   ensures f.augs.arr == old(f.augs.arr) || fresh(f.augs.arr)
 
 //@ func (f *finder) process
 //@   requires finderOK(f) && f.tok != const("go/token.EOF")
-//@   assigns f.pos, f.tok, f.prev, f.offset, lastTok, f.errors, elems(f.errors), f.augs, elems(f.augs), scanLeft, tokAfterDots, sameLineAfterDots
+//@   requires augsOK(f)
+//@   assigns f.pos, f.tok, f.prev, f.offset, lastTok, f.errors, elems(f.errors), f.augs, elems(f.augs), scanLeft, scanEnd, tokAfterDots, sameLineAfterDots
 //@   ensures finderOK(f)
+//@   ensures [C08] the-augmentations-stay-apart-and-inside-the-scanned-text: augsOK(f)
+//@   ensures [C08] the-scan-never-goes-back: f.offset >= old(f.offset)
+//@   ensures [C08] new-augmentations-lie-behind-the-token-the-step-started-at: augsGrown(f, old(len(f.augs)), old(f.offset))
+//@   ensures forall j int {f.augs[j]} :: 0 <= j && j < old(len(f.augs)) ==> f.augs[j] == old(f.augs[j])
 //@   ensures [C08] consumes-a-token: tokLeft(f) < old(tokLeft(f))
 //@   ensures f.errors.arr == old(f.errors.arr) || fresh(f.errors.arr)
 //@   ensures f.augs.arr == old(f.augs.arr) || fresh(f.augs.arr)
@@ -67,8 +86,13 @@ package augment
 
 //@ func (f *finder) function
 //@   requires finderOK(f) && f.tok != const("go/token.EOF")
-//@   assigns f.pos, f.tok, f.prev, f.offset, lastTok, f.errors, elems(f.errors), f.augs, elems(f.augs), scanLeft, tokAfterDots, sameLineAfterDots
+//@   requires augsOK(f)
+//@   assigns f.pos, f.tok, f.prev, f.offset, lastTok, f.errors, elems(f.errors), f.augs, elems(f.augs), scanLeft, scanEnd, tokAfterDots, sameLineAfterDots
 //@   ensures finderOK(f)
+//@   ensures [C08] the-augmentations-stay-apart-and-inside-the-scanned-text: augsOK(f)
+//@   ensures [C08] the-scan-never-goes-back: f.offset >= old(f.offset)
+//@   ensures [C08] new-augmentations-lie-behind-the-token-the-step-started-at: augsGrown(f, old(len(f.augs)), old(f.offset))
+//@   ensures forall j int {f.augs[j]} :: 0 <= j && j < old(len(f.augs)) ==> f.augs[j] == old(f.augs[j])
 //@   ensures [C08] consumes-a-token: tokLeft(f) < old(tokLeft(f))
 //@   ensures f.errors.arr == old(f.errors.arr) || fresh(f.errors.arr)
 //@   ensures f.augs.arr == old(f.augs.arr) || fresh(f.augs.arr)
@@ -83,8 +107,13 @@ package augment
 // A parameter/result list: scanned up to its closing parenthesis or the end of the input.
 //@ func (f *finder) fieldList
 //@   requires finderOK(f)
-//@   assigns f.pos, f.tok, f.prev, f.offset, lastTok, f.errors, elems(f.errors), f.augs, elems(f.augs), scanLeft, tokAfterDots, sameLineAfterDots
+//@   requires augsOK(f)
+//@   assigns f.pos, f.tok, f.prev, f.offset, lastTok, f.errors, elems(f.errors), f.augs, elems(f.augs), scanLeft, scanEnd, tokAfterDots, sameLineAfterDots
 //@   ensures finderOK(f)
+//@   ensures [C08] the-augmentations-stay-apart-and-inside-the-scanned-text: augsOK(f)
+//@   ensures [C08] the-scan-never-goes-back: f.offset >= old(f.offset)
+//@   ensures [C08] new-augmentations-lie-behind-the-token-the-step-started-at: augsGrown(f, old(len(f.augs)), old(f.offset))
+//@   ensures forall j int {f.augs[j]} :: 0 <= j && j < old(len(f.augs)) ==> f.augs[j] == old(f.augs[j])
 //@   ensures [C08] never-goes-back: tokLeft(f) <= old(tokLeft(f))
 //@   ensures [C08] consumes-a-token: old(f.tok) != const("go/token.EOF") ==> tokLeft(f) < old(tokLeft(f))
 //@   ensures f.errors.arr == old(f.errors.arr) || fresh(f.errors.arr)
@@ -92,64 +121,105 @@ package augment
 //@   decreases 2 * tokLeft(f) + 1
 //@   loop 0
 //@     invariant finderOK(f)
+//@     invariant augsOK(f) && f.offset >= old(f.offset) && augsGrown(f, old(len(f.augs)), old(f.offset))
+//@     invariant forall j int {f.augs[j]} :: 0 <= j && j < old(len(f.augs)) ==> f.augs[j] == old(f.augs[j])
 //@     invariant tokLeft(f) <= old(tokLeft(f)) && (old(f.tok) != const("go/token.EOF") ==> tokLeft(f) < old(tokLeft(f)))
 //@     invariant f.errors.arr == old(f.errors.arr) || fresh(f.errors.arr)
 //@     invariant f.augs.arr == old(f.augs.arr) || fresh(f.augs.arr)
 //@     invariant ellipses.arr == 0 || fresh(ellipses.arr)
+//@     invariant [C08] pending-elisions-lie-in-the-text-scanned-by-this-list: forall e int {ellipses[e]} :: 0 <= e && e < len(ellipses) ==> old(f.offset) <= ellipses[e] && ellipses[e] + 3 <= f.offset
+//@     invariant [C08] pending-elisions-are-apart: forall d int, e int {ellipses[d], ellipses[e]} :: 0 <= d && d < e && e < len(ellipses) ==> ellipses[d] + 3 <= ellipses[e]
+//@     invariant [C08] pending-elisions-are-apart-from-what-nested-lists-recorded: forall e int, j int {ellipses[e], f.augs[j]} :: 0 <= e && e < len(ellipses) && old(len(f.augs)) <= j && j < len(f.augs) ==> ellipses[e] + 3 <= aStart(f.augs[j]) || aEnd(f.augs[j]) <= ellipses[e]
 //@     decreases tokLeft(f)
 //@   loop 1
 //@     invariant finderOK(f) && tokLeft(f) <= old(tokLeft(f)) && (old(f.tok) != const("go/token.EOF") ==> tokLeft(f) < old(tokLeft(f)))
+//@     invariant [C08] forall e int {ellipses[e]} :: 0 <= e && e < len(ellipses) ==> old(f.offset) <= ellipses[e] && ellipses[e] + 3 <= f.offset
+//@     invariant [C08] forall d int, e int {ellipses[d], ellipses[e]} :: 0 <= d && d < e && e < len(ellipses) ==> ellipses[d] + 3 <= ellipses[e]
+//@     invariant [C08] the-elisions-still-pending-are-apart-from-everything-recorded-since: forall e int, j int {ellipses[e], f.augs[j]} :: #k <= e && e < len(ellipses) && old(len(f.augs)) <= j && j < len(f.augs) ==> ellipses[e] + 3 <= aStart(f.augs[j]) || aEnd(f.augs[j]) <= ellipses[e]
+//@     invariant augsOK(f) && f.offset >= old(f.offset) && augsGrown(f, old(len(f.augs)), old(f.offset))
+//@     invariant forall j int {f.augs[j]} :: 0 <= j && j < old(len(f.augs)) ==> f.augs[j] == old(f.augs[j])
 //@     invariant f.errors.arr == old(f.errors.arr) || fresh(f.errors.arr)
 //@     invariant f.augs.arr == old(f.augs.arr) || fresh(f.augs.arr)
 
 // A top-level func declaration: optional receiver list, name, parameters, results.
 //@ func (f *finder) funcDecl
 //@   requires finderOK(f)
-//@   assigns f.pos, f.tok, f.prev, f.offset, lastTok, f.errors, elems(f.errors), f.augs, elems(f.augs), scanLeft, tokAfterDots, sameLineAfterDots
+//@   requires augsOK(f)
+//@   assigns f.pos, f.tok, f.prev, f.offset, lastTok, f.errors, elems(f.errors), f.augs, elems(f.augs), scanLeft, scanEnd, tokAfterDots, sameLineAfterDots
 //@   ensures finderOK(f)
+//@   ensures [C08] the-augmentations-stay-apart-and-inside-the-scanned-text: augsOK(f)
+//@   ensures [C08] the-scan-never-goes-back: f.offset >= old(f.offset)
+//@   ensures [C08] new-augmentations-lie-behind-the-token-the-step-started-at: augsGrown(f, old(len(f.augs)), old(f.offset))
+//@   ensures forall j int {f.augs[j]} :: 0 <= j && j < old(len(f.augs)) ==> f.augs[j] == old(f.augs[j])
 //@   ensures [C08] never-goes-back: tokLeft(f) <= old(tokLeft(f))
 //@   ensures f.errors.arr == old(f.errors.arr) || fresh(f.errors.arr)
 //@   ensures f.augs.arr == old(f.augs.arr) || fresh(f.augs.arr)
 //@   loop 0
 //@     invariant finderOK(f) && tokLeft(f) <= old(tokLeft(f))
+//@     invariant augsOK(f) && f.offset >= old(f.offset) && augsGrown(f, old(len(f.augs)), old(f.offset))
+//@     invariant forall j int {f.augs[j]} :: 0 <= j && j < old(len(f.augs)) ==> f.augs[j] == old(f.augs[j])
 //@     invariant f.errors.arr == old(f.errors.arr) || fresh(f.errors.arr)
 //@     invariant f.augs.arr == old(f.augs.arr) || fresh(f.augs.arr)
 //@     decreases tokLeft(f)
 
 //@ func (f *finder) pkg
 //@   requires finderOK(f)
-//@   assigns f.pos, f.tok, f.prev, f.offset, lastTok, f.errors, elems(f.errors), f.augs, elems(f.augs), scanLeft, tokAfterDots, sameLineAfterDots
+//@   requires augsOK(f)
+//@   assigns f.pos, f.tok, f.prev, f.offset, lastTok, f.errors, elems(f.errors), f.augs, elems(f.augs), scanLeft, scanEnd, tokAfterDots, sameLineAfterDots
 //@   ensures finderOK(f)
+//@   ensures [C08] the-augmentations-stay-apart-and-inside-the-scanned-text: augsOK(f)
+//@   ensures [C08] the-scan-never-goes-back: f.offset >= old(f.offset)
+//@   ensures [C08] new-augmentations-lie-behind-the-token-the-step-started-at: augsGrown(f, old(len(f.augs)), old(f.offset))
+//@   ensures forall j int {f.augs[j]} :: 0 <= j && j < old(len(f.augs)) ==> f.augs[j] == old(f.augs[j])
 //@   ensures f.errors.arr == old(f.errors.arr) || fresh(f.errors.arr)
 //@   ensures f.augs.arr == old(f.augs.arr) || fresh(f.augs.arr)
 
 //@ func (f *finder) imports
 //@   requires finderOK(f)
-//@   assigns f.pos, f.tok, f.prev, f.offset, lastTok, f.errors, elems(f.errors), scanLeft, tokAfterDots, sameLineAfterDots
+//@   requires augsOK(f)
+//@   assigns f.pos, f.tok, f.prev, f.offset, lastTok, f.errors, elems(f.errors), scanLeft, scanEnd, tokAfterDots, sameLineAfterDots
 //@   ensures finderOK(f)
+//@   ensures [C08] the-augmentations-stay-apart-and-inside-the-scanned-text: augsOK(f)
+//@   ensures [C08] the-scan-never-goes-back: f.offset >= old(f.offset)
+//@   ensures [C08] new-augmentations-lie-behind-the-token-the-step-started-at: augsGrown(f, old(len(f.augs)), old(f.offset))
+//@   ensures forall j int {f.augs[j]} :: 0 <= j && j < old(len(f.augs)) ==> f.augs[j] == old(f.augs[j])
 //@   ensures f.errors.arr == old(f.errors.arr) || fresh(f.errors.arr)
 //@   loop 0
 //@     invariant finderOK(f)
+//@     invariant augsOK(f) && f.offset >= old(f.offset) && augsGrown(f, old(len(f.augs)), old(f.offset))
+//@     invariant forall j int {f.augs[j]} :: 0 <= j && j < old(len(f.augs)) ==> f.augs[j] == old(f.augs[j])
 //@     invariant f.errors.arr == old(f.errors.arr) || fresh(f.errors.arr)
 //@     decreases tokLeft(f)
 //@   loop 1
 //@     invariant finderOK(f) && tokLeft(f) < variant0
+//@     invariant augsOK(f) && f.offset >= old(f.offset) && augsGrown(f, old(len(f.augs)), old(f.offset))
+//@     invariant forall j int {f.augs[j]} :: 0 <= j && j < old(len(f.augs)) ==> f.augs[j] == old(f.augs[j])
 //@     invariant f.errors.arr == old(f.errors.arr) || fresh(f.errors.arr)
 //@     decreases tokLeft(f)
 
 //@ func (f *finder) topLevelDecl
 //@   requires finderOK(f)
-//@   assigns f.pos, f.tok, f.prev, f.offset, lastTok, f.errors, elems(f.errors), f.augs, elems(f.augs), scanLeft, tokAfterDots, sameLineAfterDots
+//@   requires augsOK(f)
+//@   assigns f.pos, f.tok, f.prev, f.offset, lastTok, f.errors, elems(f.errors), f.augs, elems(f.augs), scanLeft, scanEnd, tokAfterDots, sameLineAfterDots
 //@   ensures finderOK(f)
+//@   ensures [C08] the-augmentations-stay-apart-and-inside-the-scanned-text: augsOK(f)
+//@   ensures [C08] the-scan-never-goes-back: f.offset >= old(f.offset)
+//@   ensures [C08] new-augmentations-lie-behind-the-token-the-step-started-at: augsGrown(f, old(len(f.augs)), old(f.offset))
+//@   ensures forall j int {f.augs[j]} :: 0 <= j && j < old(len(f.augs)) ==> f.augs[j] == old(f.augs[j])
 //@   ensures f.errors.arr == old(f.errors.arr) || fresh(f.errors.arr)
 //@   ensures f.augs.arr == old(f.augs.arr) || fresh(f.augs.arr)
 
 // The whole scan terminates: the main loop runs until EOF and every step consumes a token.
 //@ func (f *finder) find() (augs)
 //@   requires finderOK(f)
-//@   assigns f.pos, f.tok, f.prev, f.offset, lastTok, f.errors, elems(f.errors), f.augs, elems(f.augs), scanLeft, tokAfterDots, sameLineAfterDots
+//@   requires augsOK(f)
+//@   ensures [C08] what-is-handed-on-is-the-list-as-recorded: augs == f.augs && finderOK(f) && augsOK(f)
+//@   ensures f.augs.arr == old(f.augs.arr) || fresh(f.augs.arr)
+//@   assigns f.pos, f.tok, f.prev, f.offset, lastTok, f.errors, elems(f.errors), f.augs, elems(f.augs), scanLeft, scanEnd, tokAfterDots, sameLineAfterDots
 //@   loop 0
 //@     invariant finderOK(f)
+//@     invariant augsOK(f) && f.offset >= old(f.offset) && augsGrown(f, old(len(f.augs)), old(f.offset))
+//@     invariant forall j int {f.augs[j]} :: 0 <= j && j < old(len(f.augs)) ==> f.augs[j] == old(f.augs[j])
 //@     invariant f.errors.arr == old(f.errors.arr) || fresh(f.errors.arr)
 //@     invariant f.augs.arr == old(f.augs.arr) || fresh(f.augs.arr)
 //@     decreases tokLeft(f)
@@ -178,6 +248,8 @@ package augment
 // start offset alone gives that only if augmentations with the same start keep their given order (a fake
 // package / func clause in front of an elision that starts the patch).
 //@ func rewrite(src, augs) (out, adjs)
+//@   assigns elems(augs), group(augs), outs
+//@   ensures only-its-own-buffers-are-written-to: forall x Iface {outs[x]} :: !fresh(x.val) ==> outs[x] == old(outs)[x]
 //@   requires typing: forall i int {augs[i]} :: 0 <= i && i < len(augs) ==> isAug(augs[i]) && 0 <= aStart(augs[i]) && aStart(augs[i]) <= aEnd(augs[i]) && aEnd(augs[i]) <= len(src)
 //@   requires typing: forall i int, j int {augs[i], augs[j]} :: 0 <= i && i < j && j < len(augs) ==> augs[i] != augs[j]
 //@   requires typing: forall i int, j int {augs[i], augs[j]} :: 0 <= i && i < j && j < len(augs) ==> (aStart(augs[i]) <= aStart(augs[j]) ==> aEnd(augs[i]) <= aStart(augs[j])) && (aStart(augs[j]) < aStart(augs[i]) ==> aEnd(augs[j]) <= aStart(augs[i]))
@@ -188,8 +260,18 @@ package augment
 //@     invariant forall i int, j int {augs[i], augs[j]} :: 0 <= i && i < j && j < len(augs) ==> augs[i] != augs[j]
 //@     invariant [C08] no-augmentation-begins-before-an-earlier-one-ended: forall i int, j int {augs[i], augs[j]} :: #k <= i && i < j && j < len(augs) ==> aEnd(augs[i]) <= aStart(augs[j])
 //@     invariant adjustments.arr == 0 || fresh(adjustments.arr)
+//@     invariant forall x Iface {outs[x]} :: !fresh(x.val) ==> outs[x] == old(outs)[x]
 
-// The two stages of augmentation, each under its own contract (find*, rewrite); their composition is summarised.
+// The scan as a whole: what it hands on lies inside the source, no two augmentations are the same object and
+// no two overlap (of two that start at the same offset the one recorded first is empty) - exactly what rewrite
+// needs to slice the source between them.
+//@ func find(src) (augs, err)
+//@   assigns scanLeft, scanEnd, scanSize, scanFile, lastTok, tokAfterDots, sameLineAfterDots
+//@   ensures augs.arr == 0 || fresh(augs.arr)
+//@   ensures [C08] every-augmentation-lies-inside-the-source: forall i int {augs[i]} :: 0 <= i && i < len(augs) ==> isAug(augs[i]) && 0 <= aStart(augs[i]) && aStart(augs[i]) <= aEnd(augs[i]) && aEnd(augs[i]) <= len(src)
+//@   ensures [C08] no-two-augmentations-are-the-same-or-overlap: forall i int, j int {augs[i], augs[j]} :: 0 <= i && i < j && j < len(augs) ==> augs[i] != augs[j] && augOrdered(augs[i], augs[j])
+
+// The two stages of augmentation: the preconditions of the second are what the first guarantees.
 //@ func Augment(src) (out, augs, adjs, err)
-//@   trusted finds the augmentations (finder, verified) and rewrites the text (rewrite, verified): the composition is summarised
-//@   assigns nothing
+//@   assigns scanLeft, scanEnd, scanSize, scanFile, lastTok, tokAfterDots, sameLineAfterDots, group(augs), outs
+//@   ensures only-its-own-buffers-are-written-to: forall x Iface {outs[x]} :: !fresh(x.val) ==> outs[x] == old(outs)[x]
